@@ -55,10 +55,7 @@ Definition two32 : Z := 4294967296.
 
 (* size class of one change output; `last` tells whether it is the last change output *)
 Definition size_class (c : cfg) (last : bool) (v : value) : N :=
-  let s := vsize v in
-  if s <=? max_val_size c then OKc
-  else if last && (two32 <=? coin v) && (s <=? max_val_size c + 4) then PLUS4
-  else OVERSIZE.
+  if vsize v <=? max_val_size c then OKc else OVERSIZE.      (* the former PLUS4 shape is fixed: no exception any more *)
 Fixpoint size_classes (c : cfg) (l : list value) : list N :=
   match l with
   | [] => []
@@ -90,7 +87,7 @@ Definition pack_oracle (c : cfg) (addr : bytes) (change : value) (impl : res (li
       first_fail
         ([if m_eq (msum_m arr) (massets change) then OKc else UNBALANCED]
          ++ map (fun ma => if all_posb ma then OKc else NEGATIVE) arr
-         ++ map (fun ma => if too_big c addr (mkValue 0 ma) then OVERSIZE else OKc) arr)
+         ++ map (fun ma => if too_big c addr (coin change) (mkValue 0 ma) then OVERSIZE else OKc) arr)
   end.
 
 (* ---------- decoding an emitted output ---------- *)
@@ -180,7 +177,7 @@ Definition build_oracle (c : cfg) (fee : Z) (ins : list value) (mint : masset) (
 (* ---------- cases ---------- *)
 Inductive ccase :=
 | KPack (c : cfg) (addr : bytes) (change : value) (impl : res (list masset))
-| KOvf (c : cfg) (addr : bytes) (out : value) (cur : asset) (pid name : bytes) (q : Z) (impl : bool)
+| KOvf (c : cfg) (addr : bytes) (mc : Z) (out : value) (cur : asset) (pid name : bytes) (q : Z) (impl : bool)
 | KCalc (c : cfg) (i : cc_in) (impl : res (list value))
 | KMinAda (c : cfg) (o : txout) (own map_cbor : bytes) (impl : Z) (unchanged : bool)
 | KAdd (c : cfg) (a : ac_in) (impl : res (list txout))
@@ -190,7 +187,7 @@ Inductive ccase :=
 Definition corr (k : ccase) : bool :=
   match k with
   | KPack c addr change impl => res_eqb (list_eqb masset_same) (pack_tokens c addr change) impl
-  | KOvf c addr out cur pid name q impl => Bool.eqb (overflow c addr out cur pid name q) impl
+  | KOvf c addr mc out cur pid name q impl => Bool.eqb (overflow c addr mc out cur pid name q) impl
   | KCalc c i impl => res_eqb (list_eqb value_same) (calc_change c i) impl
   | KMinAda c o own map_cbor impl _ => minada_corr c o map_cbor impl
   | KAdd c a impl => res_eqb (list_eqb txout_same) (add_change c a) impl
@@ -201,7 +198,7 @@ Definition corr (k : ccase) : bool :=
 Definition oracle (k : ccase) : N :=
   match k with
   | KPack c addr change impl => pack_oracle c addr change impl
-  | KOvf _ _ _ _ _ _ _ _ => OKc
+  | KOvf _ _ _ _ _ _ _ _ _ => OKc
   | KCalc c i impl => calc_oracle c i impl
   | KMinAda c o own _ impl unchanged => minada_oracle c own impl unchanged
   | KAdd c a impl => add_oracle c a impl
